@@ -132,8 +132,11 @@ inductive Phase
 deriving DecidableEq, Repr
 
 structure Scan where
-  d : Nat        -- nesting depth on lock 0 (mdib_lock)
+  d : Nat                  -- nesting depth on lock 0 (mdib_lock)
   ph : Phase
+  dirty : Bool := false    -- content was written in the current outermost critical section
+  bumped : Bool := false   -- mdib_version was incremented in the current outermost critical section
+  ok : Bool := true        -- no section so far was left with content written but the version not incremented
 deriving DecidableEq, Repr
 
 def Act.isWrite : Act → Bool
@@ -146,11 +149,16 @@ def Act.isMutate : Act → Bool
 
 /-- one action seen by the scanner; `none` = the discipline is violated -/
 def stepScan (s : Scan) : Act → Option Scan
-  | .acq l => if l = 0 then some { s with d := s.d + 1 } else some s
+  | .acq l =>
+    if l = 0 then
+      if s.d = 0 then some { s with d := 1, dirty := false, bumped := false }   -- a new outermost section begins
+      else some { s with d := s.d + 1 }
+    else some s
   | .rel l =>
     if l = 0 then
       if s.d = 0 then none
-      else some { d := s.d - 1, ph := if s.d = 1 ∧ s.ph = .during then .after else s.ph }
+      else some { s with d := s.d - 1, ph := if s.d = 1 ∧ s.ph = .during then .after else s.ph,
+                         ok := if s.d = 1 then s.ok && (!s.dirty || s.bumped) else s.ok }
     else some s
   | .rdV | .rdD | .rdC =>
     if s.d = 0 then none                      -- shared read outside the critical section
@@ -159,9 +167,12 @@ def stepScan (s : Scan) : Act → Option Scan
       | .after => none                        -- shared read in a second critical section
       | .mixed => some s
   | .deref => some s
-  | .incV | .wrD _ | .wrC _ | .mutate _ =>
+  | .incV =>
     if s.d = 0 then none                      -- shared write outside the critical section
-    else some { s with ph := if s.ph = .during then .mixed else s.ph }
+    else some { s with ph := if s.ph = .during then .mixed else s.ph, bumped := true }
+  | .wrD _ | .wrC _ | .mutate _ =>
+    if s.d = 0 then none                      -- shared write outside the critical section
+    else some { s with ph := if s.ph = .during then .mixed else s.ph, dirty := true }
 
 def scan (s : Scan) : List Act → Option Scan
   | [] => some s
@@ -169,7 +180,7 @@ def scan (s : Scan) : List Act → Option Scan
     | some s' => scan s' as
     | none => none
 
-def scan0 : Scan := ⟨0, .before⟩
+def scan0 : Scan := { d := 0, ph := .before }
 
 /-- every shared access of the program lies inside a critical section on `mdib_lock`, all shared reads lie in one
     and the same section, acquire/release are balanced -/
@@ -180,6 +191,16 @@ def WellLocked (p : List Act) : Prop :=
 
 instance (p : List Act) : Decidable (WellLocked p) := by
   unfold WellLocked; cases scan scan0 p <;> infer_instance
+
+/-- every critical section of the program that changes content also increments `mdib_version`
+    (what makes "the MDIB at MdibVersion v" well defined) -/
+def Committing (p : List Act) : Prop :=
+  match scan scan0 p with
+  | some s => s.ok = true
+  | none => False
+
+instance (p : List Act) : Decidable (Committing p) := by
+  unfold Committing; cases scan scan0 p <;> infer_instance
 
 /-- the program writes no shared state (a request handler) -/
 def ReadOnly (p : List Act) : Prop := ∀ a ∈ p, a.isWrite = false
